@@ -94,13 +94,25 @@ def run_case(inp):
     pos_px = b * us + (b - 1) / 2            # original pixel coordinates of the same physical points
     pos = pos_px * scale
 
-    def wrap(a):
-        return da.from_array(a, chunks=tuple(inp["chunks"])) if inp["chunks"] else a
+    def wrap(a, t=0):
+        if inp.get("mixed") and t % 2 == 0:
+            return a                      # numpy and dask tomograms in the same batch
+        if not inp["chunks"]:
+            return a
+        ch = inp["chunks"]
+        if inp.get("irregular"):
+            # a first chunk that is not a multiple of the bin size although the largest chunk is
+            # (what a lazily cropped or concatenated tomogram looks like)
+            ch = tuple((min(b + 1, s),) + tuple([2 * b] * ((s - min(b + 1, s)) // (2 * b)))
+                       + (((s - min(b + 1, s)) % (2 * b),) if (s - min(b + 1, s)) % (2 * b) else ())
+                       for s in a.shape)
+            return da.from_array(a, chunks=ch)
+        return da.from_array(a, chunks=tuple(ch))
 
     with dask.config.set(scheduler="synchronous"):
         try:
             if inp["kind"] == "single":
-                ld = SubtomogramLoader(wrap(tomos[0]), Molecules(pos), order=inp["order"], scale=scale,
+                ld = SubtomogramLoader(wrap(tomos[0], 1), Molecules(pos), order=inp["order"], scale=scale,
                                        output_shape=(n,) * 3)
                 ids = [0] * len(us)
             else:
@@ -108,7 +120,7 @@ def run_case(inp):
                 ids = [i % ntomo for i in range(len(us))]
                 for t in range(ntomo):
                     sel = [i for i in range(len(us)) if ids[i] == t]
-                    ld.add_tomogram(wrap(tomos[t]), Molecules(pos[sel]), t)
+                    ld.add_tomogram(wrap(tomos[t], t), Molecules(pos[sel]), t)
                 ids = sorted(ids)
                 order_idx = [i for t in range(ntomo) for i in range(len(us)) if i % ntomo == t]
                 pos_px = pos_px[order_idx]
@@ -173,7 +185,17 @@ def oracle(rng, thorough, deep=False, hints=None):
             chunks = [int(rng.choice([max(2, s // 2), 16, 15, s])) for s in shape]
         cases.append(dict(kind=kind, ntomo=1 if kind == "single" else 2, b=b, n=n, shape=shape,
                           scale=float(rng.choice([1.0, 0.5, 1.625])), order=int(rng.choice([0, 1])),
-                          nmol=3, chunks=chunks, compute=bool((it // 2) % 2), seed=int(rng.integers(0, 10 ** 6))))
+                          nmol=3, chunks=chunks, compute=bool((it // 2) % 2), seed=int(rng.integers(0, 10 ** 6)),
+                          mixed=bool(kind == "batch" and chunks is not None and it % 4 == 3),
+                          irregular=bool(chunks is not None and it % 3 == 1)))
+    # always: a batch with a numpy tomogram registered before a dask one, computed; irregular chunks
+    for b, comp in ((2, True), (3, True)):
+        n = 3
+        shape = [b * (n + 4) + 1] * 3
+        cases.append(dict(kind="batch", ntomo=2, b=b, n=n, shape=shape, scale=1.0, order=0, nmol=4, chunks=[16, 16, 16],
+                          compute=comp, seed=int(rng.integers(0, 10 ** 6)), mixed=True, irregular=False))
+        cases.append(dict(kind="single", ntomo=1, b=b, n=n, shape=shape, scale=0.5, order=1, nmol=3, chunks=[16, 16, 16],
+                          compute=False, seed=int(rng.integers(0, 10 ** 6)), mixed=False, irregular=True))
     viols, stats = [], {"by_b": {}, "dask": 0, "batch": 0, "samples": [{"oracle_case": c} for c in cases[:2]]}
     for c in cases:
         stats["by_b"][c["b"]] = stats["by_b"].get(c["b"], 0) + 1
